@@ -1,192 +1,1134 @@
-"""C07 simplify (structural clauses)."""
+"""C07 simplify: decision tables and conservation laws by abstract evaluation.
+
+Nothing here looks at source text.  ``simplify.find_compatible_terms`` and ``simplify.simplify`` are evaluated by
+``sa.symex`` on small abstract inputs (terms whose index patterns, descriptions and target indices are chosen by the
+rule; ``order_substitutions``, ``.subs`` and the sympy type/zero tests stay uninterpreted and fork the evaluation), and
+every path is compared with expectations that are written down independently below: the set of admissible index maps
+(brute force over bijections), the acceptance table of a candidate, the partition bookkeeping (every term exactly once)
+and the sum that ``simplify`` has to return.  The fingerprint functions of expr_container (``Obj.description``,
+``Obj.crude_pos``, ``Term.coupling``, ``Term.pattern``) are evaluated on tables of small tensors and compared with an
+independent statement of *which* objects/indices have to share a fingerprint (partition equality, equivariance under
+renaming of contracted indices), never with the strings themselves.
+"""
 from __future__ import annotations
 
-import ast
+import itertools
 
-from ..model import AnalysisError, U, Defs, calls_in, call_name, walk_fn, kwarg, enclosing, enclosing_stmt
-from ..pathcond import conditions
-from . import common
+from ..model import AnalysisError
+from ..symex import Symex, Obj
+from ..terms import T, sym, show, expand_products, is_num, subterms, t_add
 from . import c08
 
 EXPLANATION = (
-    "R07a: every accepted substitution returned by find_compatible_terms.compare_terms is dominated "
-    "by (i) the substituted other term not being a spurious zero and (ii) the difference term - "
-    "substituted_other not being a sum (it collapses to one term), where substituted_other is "
-    "other_term.sympy.subs(<that same substitution>). R07b: a candidate index pair is discarded when "
-    "exactly one of the indices is a target or both are different targets, and accepted only for "
-    "identical patterns. R07c: partition bookkeeping: every term becomes a key unless matched; each "
-    "stored match is paired with matched.add; simplify adds every key term once and every matched "
-    "term once, substituted; prefilter key contains the target indices. R07d: the substitution sites "
-    "of simplify.py obey the ordered-substitution discipline (R08a). R07e: the index fingerprints "
-    "(Term.pattern / coupling / Obj.crude_pos / description) distinguish upper/lower positions iff "
-    "the tensor has no bra-ket symmetry, include the exponent and the target names.")
+    "All rules evaluate the library functions abstractly (sa.symex); no rule compares source text, local names or "
+    "statement layout. R07a/R07b/R07c evaluate simplify.find_compatible_terms (everything defined in simplify.py is "
+    "evaluated through, also nested and extracted helpers) on lists of abstract terms whose index patterns, object "
+    "descriptions and target indices are chosen by the rule; order_substitutions, .subs, `X is S.Zero` and "
+    "isinstance(.., Add) stay uninterpreted, so every combination of their answers is one path (the larger tables are "
+    "evaluated for non-vanishing substitutions only). On every path: R07b - the index maps that are tried are exactly "
+    "the admissible ones computed independently by brute force (bijections other->term inside one (space, spin) class "
+    "with equal index patterns, contracted onto contracted, a target index only onto itself; all spaces combined), and "
+    "two terms stay separate only if every admissible map was rejected; R07a - a map is accepted only as the result of "
+    "order_substitutions, only after isinstance(term.sympy -/+ other_term.sympy.subs(<that map>), Add) was answered "
+    "False, and only if a spurious zero (substituted term is S.Zero while the term is not) is refuted on the path; a "
+    "rejection needs `is a sum` or a spurious zero; R07c - every term index occurs exactly once in the result (as key "
+    "or as matched term), only terms of the same prefilter class (descriptions without prefactors, index subspaces "
+    "shared by two objects, pattern sizes, target indices - stated independently) are compared or merged, terms of "
+    "one class are all compared, fingerprints are requested with target names and exponents, valid input never raises, "
+    "non-Term input is refused; simplify.simplify (expanded and unexpanded abstract expressions) returns sum_keys t_i + "
+    "sum_matched t_j.subs(<ordered map accepted on this path for (i, j)>) with every term of the *expanded* expression "
+    "exactly once and coefficient one, returns the expression itself only if the expanded expression has one term, and "
+    "refuses non-Expr input with Inputerror. R07d: the substitution sites of simplify.py obey the ordered-substitution "
+    "discipline (R08a, owned by C08). R07e: Obj.description and Obj.crude_pos evaluated on a table of tensors (types, "
+    "names, spaces, exponents, target sets, bra-ket symmetry 0/+1/-1, both orientations; all four switch settings): "
+    "two objects / index positions get the same fingerprint iff they agree in type, name, spaces, exponent, target "
+    "names and - only without bra-ket symmetry - upper/lower orientation (for +-1 the orientation must not matter), "
+    "neighbour spaces and neighbour target names (partition equality, the strings themselves are not compared); "
+    "crude_pos lists every index once per occurrence; Term.coupling (objects with opaque fingerprints) equals the "
+    "multiset of positions of the shared indices on the other objects, for repeated descriptions only; Term.pattern "
+    "groups by (space, spin), lists every index once and gives two indices the same pattern iff their multisets of "
+    "(position, coupling of the object) agree, whatever the order of the objects; with everything evaluated through, "
+    "the pattern of a renamed term is the renamed pattern for renamings of contracted indices that flip the canonical "
+    "bra/ket orientation and reorder the objects (thorough: sweep over all renamings of a family of terms).")
 ASSUMPTIONS = [
-    "completeness of the pattern fingerprints (that alpha-equivalent terms are always found) is not decided",
+    "completeness of the pattern fingerprints for arbitrary terms (that alpha-equivalent terms are always found) is "
+    "decided only on the listed tables of small tensors/terms (bounded)",
+    "sympy semantics of .subs, Add, S.Zero and the canonical form of AntiSymmetricTensor are modelled, not analysed: "
+    "indices sorted per upper/lower part, parts swapped by space, then name, for bra-ket (anti)symmetric tensors; spin "
+    "is left empty in all tables",
+    "that `term - substituted_other is not an Add` implies proportionality of the two terms is sympy behaviour (assumed)",
+    "assumptions/target indices of the returned Expr are carried by Container.__radd__/__iadd__ and are not visible "
+    "in the evaluated sum",
+    "the `length` component of the prefilter key is implied by the tuple of descriptions and is not checked separately; "
+    "which term of a class becomes the key and the order in which maps are tried are not prescribed",
+    "find_compatible_terms / simplify are evaluated for at most five terms and 24 maps per pair (bounded)",
 ]
 
-CT = "simplify:find_compatible_terms.compare_terms"
+FCT = "simplify:find_compatible_terms"
+SIMP = "simplify:simplify"
+OCC = "ijklmn"
 
 
-def r07a(ctx):
-    rule = "R07a"
-    fn = ctx.model.fn(CT)
-    defs = Defs(fn)
-    rets = [r for r in common.returns_of(fn) if U(r.value) != "None"]
-    ctx.floor(rule, "accepting returns in compare_terms", len(rets), 1)
-    for r in rets:
-        name = U(r.value)
-        conds = conditions(r)
-        # the substituted other term
-        lp = enclosing(r, ast.For)
-        subs = [a for a in walk_fn(fn) if isinstance(a, ast.Assign) and isinstance(a.value, ast.Call) and call_name(a.value) == "subs"
-                and lp is not None and any(a is x for x in ast.walk(lp))]
-        ok_sub = len(subs) == 1 and U(subs[0].value.func.value) == "other_term.sympy" and U(subs[0].value.args[0]) == name
-        so = U(subs[0].targets[0]) if subs else "?"
-        ctx.check(rule, r, ok_sub, f"`{so}` = other term with the returned substitution applied",
-                  "the term that is tested is not other_term.sympy.subs(<returned substitution>)", key="tested term")
-        single = (f"isinstance(term.sympy - {so}, Add)", False) in conds
-        ctx.check(rule, r, single, "accepted only if term - substituted other collapses to a single term",
-                  "a substitution is accepted without checking that term - substituted_other is a single term (not an Add)",
-                  key="single term")
-        zero = [n for n in walk_fn(lp) if isinstance(n, ast.Continue)] if lp is not None else []
-        okz = any(U(z._parent.test) == f"{so} is S.Zero and other_term.sympy is not S.Zero" and z.lineno < r.lineno for z in zero)
-        ctx.check(rule, r, okz, "spurious zeros (substitution annihilates the other term) are skipped before the test",
-                  "a substitution that turns the other term into 0 is not excluded before acceptance", key="spurious zero")
-        od = [a for a in walk_fn(lp) if isinstance(a, ast.Assign) and U(a.targets[0]) == name] if lp is not None else []
-        ctx.check(rule, r, len(od) == 1 and U(od[0].value) == f"order_substitutions({name})", "candidate ordered before use",
-                  "candidate substitution is not ordered", key="ordered")
+def _space(name):
+    return "occ" if name[0] in OCC else "virt"
 
 
-def r07b(ctx):
-    rule = "R07b"
-    fn = ctx.model.fn(CT)
-    app = [c for c in calls_in(fn) if call_name(c) == "append" and U(c.func.value) == "matching_idx"]
-    ctx.floor(rule, "candidate acceptance sites", len(app), 1)
-    for c in app:
-        conds = conditions(c)
-        ok_pat = ("pat == other_pat", True) in conds
-        tg = {("is_target == other_is_target", True)} <= {(t, p) for t, p in conds} or ("is_target != other_is_target", False) in conds
-        # raw test: is_target != other_is_target or (is_target and other_is_target and idx is not other_idx)  -> False
-        atoms_ = {(t, p) for t, p in conds}
-        both = ("is_target and other_is_target and (idx is not other_idx)", False) in atoms_ or \
-            ("is_target and other_is_target and idx is not other_idx", False) in atoms_
-        ctx.check(rule, c, ok_pat, "candidate only for identical index patterns", "candidate accepted without equal patterns", key="pattern eq")
-        ctx.check(rule, c, tg, "never a target paired with a contracted index", "target/contracted pairing not excluded", key="mixed target")
-        ctx.check(rule, c, both, "two target indices only if they are the same index", "different target indices may be mapped onto each other",
-                  key="different targets")
-        ctx.check(rule, c, U(c.args[0]) == "other_idx", "candidate is the other term's index", "wrong candidate appended", key="candidate")
-    a = {U(x.targets[0]): U(x.value) for x in walk_fn(fn) if isinstance(x, ast.Assign)}
-    ctx.check(rule, fn, a.get("is_target") == "idx in target" and a.get("other_is_target") == "other_idx in target",
-              "target test against the term's target indices", f"target tests: {a.get('is_target')}, {a.get('other_is_target')}", key="is_target")
-    ctx.check(rule, fn, a.get("other_idx_pattern") == "other_pattern[ov]", "indices compared within one (space, spin) only",
-              "space restriction changed", key="same space")
-    ext = [x for x in walk_fn(fn) if isinstance(x, ast.Assign) and U(x.targets[0]) == "extended_sub[other_idx]"]
-    ctx.check(rule, fn, len(ext) == 1 and U(ext[0].value) == "idx", "map other_idx -> idx", "direction of the substitution changed", key="direction")
-    sk = [n for n in walk_fn(fn) if isinstance(n, ast.Continue) and U(n._parent.test) == "other_idx in sub"]
-    ctx.check(rule, fn, len(sk) == 1, "an index of the other term is mapped at most once (injective)", "injectivity check removed", key="injective")
-    flt = [x for x in walk_fn(fn) if isinstance(x, ast.Assign) and U(x.targets[0]) == "ov_sub_list" and isinstance(x.value, ast.ListComp)]
-    ok = any(U(x.value) == "[sub for sub in ov_sub_list if sub.keys() == other_idx_pattern.keys()]" for x in flt)
-    ctx.check(rule, fn, ok, "only complete maps (all indices of the space) survive", "completeness filter changed", key="complete")
-    cp = [x for x in walk_fn(fn) if isinstance(x, ast.Assign) and U(x.targets[0]) == "extended_sub"]
-    ctx.check(rule, fn, len(cp) == 1 and U(cp[0].value) == "sub.copy()", "candidate maps extended on a copy", "in-place extension of shared maps",
-              key="copy")
+def _inline_simplify(q):
+    # everything defined in simplify.py is evaluated through (also a helper that a refactoring extracts)
+    return q.startswith("simplify:")
 
 
-def r07c(ctx):
-    rule = "R07c"
-    fn = ctx.model.fn("simplify:find_compatible_terms")
-    st = [a for a in walk_fn(fn, nested=False) if isinstance(a, ast.Assign) and U(a.targets[0]) == "compatible_terms[term_i][other_term_i]"]
-    ok = len(st) == 1 and ("sub is None", False) in conditions(st[0])
-    ctx.check(rule, fn, ok, "a match is stored only for a found substitution", "match stored without a substitution", key="store guard")
-    if st:
-        blk = st[0]._parent.body
-        ctx.check(rule, st[0], any(U(s) == "matched.add(other_term_i)" for s in blk), "stored match is marked as matched",
-                  "a stored match is not added to `matched` (the term would be added twice)", key="matched pairing")
-    key = [a for a in walk_fn(fn, nested=False) if isinstance(a, ast.Assign) and U(a.targets[0]) == "compatible_terms[term_i]"]
-    ok = len(key) == 1 and U(key[0].value) == "{}" and ("term_i in matched", False) in conditions(key[0])
-    ctx.check(rule, fn, ok, "every unmatched term becomes a key", "key creation changed", key="key")
-    sk = [n for n in walk_fn(fn, nested=False) if isinstance(n, ast.Continue)]
-    tests = sorted(U(n._parent.test) for n in sk)
-    ctx.check(rule, fn, tests == ["(descr := o.description()) == 'prefactor'", "other_term_i in matched", "term_i in matched"],
-              "terms are skipped only when already matched", f"skip conditions {tests}", key="skips")
-    k = [a for a in walk_fn(fn, nested=False) if isinstance(a, ast.Assign) and U(a.targets[0]) == "key"]
-    ok = len(k) == 1 and isinstance(k[0].value, ast.Tuple) and U(k[0].value.elts[-1]) == "target" and len(k[0].value.elts) == 5
-    ctx.check(rule, fn, ok, "prefilter key: length, descriptions, repeated index spaces, pattern sizes, targets", "prefilter key changed",
-              key="prefilter")
-    ap = [c for c in calls_in(fn, nested=False) if call_name(c) == "append" and U(c.func.value) == "filtered_terms[key]"]
-    ctx.check(rule, fn, len(ap) == 1 and U(ap[0].args[0]) == "term_i" and ap[0]._parent._parent is enclosing(ap[0], ast.For),
-              "every term enters exactly one prefilter class", "prefilter classification changed", key="classes")
-    cmpc = [c for c in calls_in(fn, nested=False) if call_name(c) == "compare_terms"]
-    ok = len(cmpc) == 1 and [U(a) for a in cmpc[0].args] == ["pattern", "term_pattern[other_term_i]", "target", "term", "terms[other_term_i]"]
-    ctx.check(rule, fn, ok, "key term compared with the candidate term", "compare_terms arguments changed", key="compare args")
-    s = ctx.model.fn("simplify:simplify")
-    lp = [n for n in walk_fn(s) if isinstance(n, ast.For) and U(n.iter) == "equal_terms.items()"]
-    ok = len(lp) == 1
-    if ok:
-        body = [U(x) for x in lp[0].body]
-        ok = body[0] == "res += terms[n]" and len(body) == 2 and "for other_n, sub in matches.items():" in body[1] \
-            and "res += terms[other_n].subs(sub)" in body[1]
-    ctx.check(rule, s, ok, "key term added once, matched terms added once with their substitution", "simplify accumulation changed",
-              key="simplify add")
-    r1 = [r for r in common.returns_of(s) if ("len(expr) == 1", True) in conditions(r)]
-    ctx.check(rule, s, len(r1) == 1 and U(r1[0].value) == "expr", "single term returned unchanged", "trivial case changed", key="trivial")
-    exp = [x for x in walk_fn(s) if isinstance(x, ast.Assign) and U(x.targets[0]) == "expr" and U(x.value) == "expr.expand()"]
-    ctx.check(rule, s, len(exp) == 1 and bool(r1) and exp[0].lineno < r1[0].lineno, "term count taken from the expanded expression",
-              "the single-term shortcut is taken before the expression is expanded: a product containing a sum is returned "
-              "untouched", key="expand first")
-    a = {U(x.targets[0]): U(x.value) for x in walk_fn(s) if isinstance(x, ast.Assign)}
-    ctx.check(rule, s, a.get("terms") == "expr.terms" and a.get("equal_terms") == "find_compatible_terms(terms)" and a.get("expr") == "expr.expand()",
-              "all terms of the expanded expression are compared", "term source changed", key="terms")
+# ---------------------------------------------------------------------------------------------------------------------
+# abstract world for find_compatible_terms / simplify
 
 
-def r07e(ctx):
+class World:
+    """Index records shared by all terms of one path."""
+
+    def __init__(self):
+        self.I = {}
+
+    def idx(self, name):
+        if name not in self.I:
+            sp = _space(name)
+            o = Obj(None, name)
+            o.attrs.update(name=name, space=sp, spin="", space_and_spin=(sp, ""))
+            self.I[name] = o
+        return self.I[name]
+
+    def tup(self, names):
+        return tuple(self.idx(n) for n in names)
+
+
+_CLS = {"anti": {"AntiSymmetricTensor", "SymbolicTensor"}, "nonsym": {"NonSymmetricTensor", "SymbolicTensor"},
+        "delta": {"KroneckerDelta"}, "pref": {"Number"}}
+
+
+def tspec(target, pattern, objs=(("A", "anti", "", ""),)):
+    """One abstract term: target names, {space: {index name: [pattern tokens]}}, objects (descr, class, upper, lower)."""
+    return dict(target=target, pattern=pattern, objs=tuple(objs))
+
+
+def build_terms(w, specs, prefix="t"):
+    out = []
+    for k, sp in enumerate(specs):
+        t = Obj("expr_container:Term", f"{prefix}{k}")
+        objs = []
+        for n, (descr, cl, up, lo) in enumerate(sp["objs"]):
+            base = Obj(None, f"{prefix}{k}.b{n}")
+            base.attrs.update(_classes=set(_CLS[cl]), upper=w.tup(up), lower=w.tup(lo), name=descr, idx=w.tup(up + lo))
+            o = Obj("expr_container:Obj", f"{prefix}{k}.o{n}")
+            o.attrs.update(_descr=descr, base=base, idx=w.tup(up + lo), term=t, exponent=1, name=descr,
+                           type_as_str={"anti": "antisymtensor", "nonsym": "nonsymtensor", "delta": "delta", "pref": "prefactor"}[cl])
+            objs.append(o)
+        t.attrs.update(target=w.tup(sp["target"]), objects=tuple(objs), sympy=T("attr", sym(f"{prefix}{k}"), "sympy"),
+                       _pattern={(s, ""): {w.idx(i): list(p) for i, p in d.items()} for s, d in sp["pattern"].items()})
+        out.append(t)
+    return out
+
+
+class Probe:
+    """Hooks of the uninterpreted vocabulary; records what the evaluated code asked for."""
+
+    def __init__(self, nonzero=False):
+        self.bad_flags = []
+        self.nonzero = nonzero      # scenario restricted to substitutions that do not annihilate the term (fewer paths)
+
+    def hooks(self):
+        def pattern(sx, a, kw):
+            flags = dict(zip(("include_target_idx", "include_exponent"), a[1:]))
+            flags.update(kw)
+            if any(v is not True for v in flags.values()):
+                self.bad_flags.append(("pattern", tuple(sorted(flags.items()))))
+            return a[0].attrs["_pattern"]
+
+        def description(sx, a, kw):
+            flags = dict(zip(("include_exponent", "include_target_idx"), a[1:]))
+            flags.update(kw)
+            if any(v is not True for v in flags.values()):
+                self.bad_flags.append(("description", tuple(sorted(flags.items()))))
+            return a[0].attrs["_descr"]
+
+        def order_substitutions(sx, a, kw):
+            d = a[0] if a else kw.get("subsdict")
+            if not isinstance(d, dict) or not all(isinstance(k, Obj) and isinstance(v, Obj) for k, v in d.items()):
+                return NotImplemented
+            return ("ORD", tuple(sorted((k.attrs["name"], v.attrs["name"]) for k, v in d.items())))
+
+        def subs(sx, a, kw):
+            r = a[0].term if isinstance(a[0], Obj) else a[0]
+            arg = a[1] if len(a) == 2 and not kw else ("?", _fz(a[1:]), _fz(kw))
+            tok = T("subs", r, _fz(arg))
+            if self.nonzero:
+                for op in ("is", "=="):
+                    sx.assume(T("cmp", op, *sorted((tok, sym("S.Zero")), key=repr)), False)
+            return tok
+
+        def length(sx, a, kw):
+            if len(a) == 1 and isinstance(a[0], Obj) and "_n" in a[0].attrs:
+                return a[0].attrs["_n"]
+            return NotImplemented
+
+        def expand(sx, a, kw):
+            e = a[0]
+            if not isinstance(e, Obj) or "_n" not in e.attrs:
+                return NotImplemented
+            if not e.attrs["_expanded"]:
+                e.attrs.update(_expanded=True, _n=len(e.attrs["_exp_terms"]), terms=tuple(e.attrs["_exp_terms"]))
+            return e
+        def expr_ctor(sx, a, kw):
+            # Expr(<number>, **assumptions): the wrapped number (start value of a sum)
+            return a[0] if a and is_num(a[0]) else NotImplemented
+
+        def add_ctor(sx, a, kw):
+            # sympy.Add(*summands)
+            if kw or not all(isinstance(x, (T, Obj)) or is_num(x) for x in a):
+                return NotImplemented
+            return t_add(*[x.term if isinstance(x, Obj) else x for x in a])
+        return {"Term.pattern": pattern, "Obj.description": description, "order_substitutions": order_substitutions,
+                "subs": subs, "len": length, "Expr.expand": expand, "Expr": expr_ctor, "Add": add_ctor}
+
+
+def _fz(v):
+    if isinstance(v, Obj):
+        return v.term
+    if isinstance(v, dict):
+        return ("dict",) + tuple((_fz(k), _fz(x)) for k, x in v.items())
+    if isinstance(v, (list, tuple)):
+        return tuple(_fz(x) for x in v)
+    return v
+
+
+# ------------------------------------------------------------------------------------------ independent expectations
+
+def prefilter_class(sp):
+    """Terms are comparable iff: same descriptions of the non-prefactor objects, same subspaces shared by two objects
+    with more than one common index, same number of indices per (space, spin), same target indices."""
+    objs = [o for o in sp["objs"] if o[0] != "prefactor"]
+    descr = tuple(sorted(o[0] for o in objs))
+    parts = []
+    for d, cl, up, lo in objs:
+        if cl == "anti":
+            parts.append((d, (set(up), set(lo))))
+        elif cl in ("nonsym", "delta"):
+            parts.append((d, (set(up + lo), set())))
+    shared = []
+    for (d1, p1), (d2, p2) in itertools.combinations(parts, 2):
+        for a in p1:
+            for b in p2:
+                if len(a & b) > 1:
+                    shared.append(("".join(sorted(_space(x)[0] for x in a & b)),) + tuple(sorted((d1, d2))))
+    sizes = tuple(sorted((s, len(d)) for s, d in sp["pattern"].items()))
+    return (descr, tuple(sorted(shared)), sizes, tuple(sp["target"]))
+
+
+def candidates(sp_i, sp_j):
+    """Admissible index maps other (j) -> term (i): per space a bijection that preserves the index pattern, maps
+    contracted onto contracted indices and a target index only onto itself."""
+    tgt = set(sp_i["target"])
+    per_space = []
+    for s, pi in sp_i["pattern"].items():
+        pj = sp_j["pattern"].get(s)
+        if pj is None or len(pj) != len(pi):
+            return set()
+        A, B = list(pi), list(pj)
+        maps = []
+        for perm in itertools.permutations(A):
+            ok = True
+            for b, a in zip(B, perm):
+                if sorted(pj[b]) != sorted(pi[a]) or (a in tgt) != (b in tgt) or (a in tgt and a != b):
+                    ok = False
+                    break
+            if ok:
+                maps.append(tuple(zip(B, perm)))
+        if not maps:
+            return set()
+        per_space.append(maps)
+    out = set()
+    for combo in itertools.product(*per_space):
+        out.add(tuple(sorted(p for m in combo for p in m)))
+    return out
+
+
+# ------------------------------------------------------------------------------------------------- reading a path
+
+def _term_no(t, prefix="t"):
+    """i for `t<i>` / `t<i>.sympy`."""
+    if isinstance(t, T) and t.op == "attr" and t.args[1] == "sympy":
+        t = t.args[0]
+    if isinstance(t, T) and t.op == "sym" and str(t.args[0]).startswith(prefix) and str(t.args[0])[len(prefix):].isdigit():
+        return int(str(t.args[0])[len(prefix):])
+    return None
+
+
+def _sub_token(t):
+    """(j, map key | None, raw argument) for `t<j>[.sympy].subs(arg)`."""
+    if isinstance(t, T) and t.op == "subs":
+        j = _term_no(t.args[0])
+        arg = t.args[1]
+        key = arg[1] if isinstance(arg, tuple) and len(arg) == 2 and arg[0] == "ORD" else None
+        return j, key, arg
+    return None
+
+
+def _is_zero_sym(x):
+    return isinstance(x, T) and x.op == "sym" and str(x.args[0]).split(".")[-1] == "Zero"
+
+
+class PathFacts:
+    def __init__(self, outcome):
+        self.A, self.Z, self.Ozero, self.odd = {}, {}, {}, []
+        self.raw_subs = []          # substitutions that were tried with something else than an ordered map
+        for atom, pol in outcome.path:
+            if atom.op == "isinstance" and atom.args[1] == "Add":
+                p = self._diff(atom.args[0])
+                if p is None:
+                    self.odd.append((atom, pol))
+                else:
+                    i, j, key, arg = p
+                    if key is None:
+                        self.raw_subs.append((i, j, arg))
+                    self.A[(i, j, key if key is not None else ("raw", arg))] = pol
+                continue
+            if atom.op == "cmp" and atom.args[0] in ("is", "==") and any(_is_zero_sym(x) or x == 0 for x in atom.args[1:]):
+                other = [x for x in atom.args[1:] if not (_is_zero_sym(x) or (is_num(x) and x == 0))]
+                if len(other) == 1:
+                    st = _sub_token(other[0])
+                    if st is not None and st[0] is not None:
+                        self.Z[(st[0], st[1] if st[1] is not None else ("raw", st[2]))] = pol
+                        continue
+                    j = _term_no(other[0])
+                    if j is not None:
+                        self.Ozero[j] = pol
+                        continue
+            self.odd.append((atom, pol))
+
+    @staticmethod
+    def _diff(x):
+        """term_i.sympy -/+ term_j.sympy.subs(map)  ->  (i, j, key, raw arg)"""
+        ps = expand_products(x)
+        if len(ps) != 2 or any(len(fs) != 1 or c not in (1, -1) for c, fs in ps):
+            return None
+        a, b = ps[0][1][0], ps[1][1][0]
+        for u, v in ((a, b), (b, a)):
+            i, st = _term_no(u), _sub_token(v)
+            if i is not None and isinstance(u, T) and u.op == "attr" and st is not None and st[0] is not None:
+                return i, st[0], st[1], st[2]
+        return None
+
+    def rejected(self, i, j, key):
+        """The path holds a valid reason to discard the map: the difference is a sum, or a spurious zero."""
+        if self.A.get((i, j, key)) is True:
+            return True
+        return self.Z.get((j, key)) is True and self.Ozero.get(j) is False
+
+    def accepted_properly(self, i, j, key):
+        """None if the acceptance of the map is justified on this path, else (clause, text)."""
+        if self.A.get((i, j, key)) is not False:
+            return ("single term", f"map of t{j} onto t{i} accepted without `t{i} - t{j}.subs(map)` having been found not to be a sum")
+        # spurious zero = the substituted term is 0 and the term itself is not; acceptance needs one of the two refuted
+        z, oz = self.Z.get((j, key)), self.Ozero.get(j)
+        if z is False or oz is True:
+            return None
+        if z is None:
+            return ("spurious zero", f"map of t{j} onto t{i} accepted without testing whether it annihilates t{j}")
+        return ("spurious zero", f"map of t{j} onto t{i} accepted although it turns the non-zero t{j} into 0")
+
+
+# ---------------------------------------------------------------------------------------------------- the verifier
+
+class Tally:
+    """Collects per (rule, clause) the number of paths examined and the first failure."""
+
+    def __init__(self):
+        self.n, self.fail = {}, {}
+
+    def see(self, rule, clause, ok, msg=""):
+        k = (rule, clause)
+        self.n[k] = self.n.get(k, 0) + 1
+        if not ok and k not in self.fail:
+            self.fail[k] = msg
+
+    def flush(self, ctx, node, scen, facts):
+        for (rule, clause), n in sorted(self.n.items()):
+            if not ctx.want(rule):
+                continue
+            ctx.check(rule, node, (rule, clause) not in self.fail, f"{scen}: {facts.get(clause, clause)} ({n} path(s))",
+                      f"{scen}: {self.fail.get((rule, clause))}", key=f"{scen} / {clause}")
+
+
+FACTS = {
+    "conservation": "every term is a key or matched to exactly one key",
+    "prefilter": "only terms of the same prefilter class are compared or merged",
+    "classes compared": "terms of one class that stay separate were compared (admissible maps were tried)",
+    "no raise": "valid input is processed without an exception",
+    "flags": "patterns/descriptions taken with target indices and exponents included",
+    "legal maps": "only admissible index maps are tried",
+    "all maps tried": "terms stay separate only after every admissible map was rejected",
+    "ordered": "substitutions are applied and returned as order_substitutions results",
+    "tested term": "the sum test is applied to term.sympy -/+ other_term.sympy.subs(map)",
+    "single term": "a map is accepted only if the difference is not a sum",
+    "spurious zero": "a map that annihilates the other term is never accepted",
+    "decisions": "all decisions of the path are about substituted terms",
+    "result shape": "result is {key: {matched: substitution}}",
+}
+
+
+def verify_partition(tl, specs, o, zero_checked=True):
+    """One path of find_compatible_terms against the expectations."""
+    n = len(specs)
+    cls = [prefilter_class(s) for s in specs]
+    pf = PathFacts(o)
+    tl.see("R07c", "no raise", o.kind == "return", f"raises {o.exc} on a list of valid terms")
+    if o.kind != "return":
+        return None
+    R = o.value
+    shape = isinstance(R, dict) and all(isinstance(k, int) and isinstance(v, dict) and all(isinstance(j, int) for j in v)
+                                        for k, v in R.items())
+    tl.see("R07c", "result shape", shape, f"result is {show(R)[:200]}")
+    if not shape:
+        return None
+    seen = list(R) + [j for v in R.values() for j in v]
+    tl.see("R07c", "conservation", sorted(seen) == list(range(n)),
+           f"term indices in the result are {sorted(seen)} (keys {sorted(R)}), expected each of 0..{n - 1} exactly once: a term would be "
+           "dropped or added twice by simplify")
+    # decisions the analysis does not understand
+    odd_add = [a for a, p in pf.odd if a.op == "isinstance"]
+    tl.see("R07a", "tested term", not odd_add and not any(k[0] == k[1] for k in pf.A),
+           f"sum test applied to {show(odd_add[0].args[0])[:200] if odd_add else 'a term and itself'} instead of term.sympy - "
+           "other_term.sympy.subs(<candidate map>)")
+    rest = [a for a, p in pf.odd if a.op != "isinstance"]
+    if rest:
+        raise AnalysisError(f"C07: decision outside the modelled vocabulary on a path of find_compatible_terms: {show(rest[0])[:200]}")
+    # everything that was tried
+    tried = set(pf.A) | {(None, j, k) for (j, k) in pf.Z}
+    raw = [k for k in tried if isinstance(k[2], tuple) and k[2][:1] == ("raw",)]
+    tl.see("R07a", "ordered", not raw, f"substitution applied without order_substitutions: {show(raw[0][2][1])[:160] if raw else ''}")
+    for (i, j, key) in sorted(pf.A, key=repr):
+        if isinstance(key, tuple) and key[:1] == ("raw",):
+            continue
+        same = cls[i] == cls[j] if i < n and j < n else False
+        tl.see("R07c", "prefilter", same, f"t{i} and t{j} are compared although their prefilter classes differ "
+               f"({_cls_diff(cls[i], cls[j]) if i < n and j < n else '?'})")
+        legal = key in candidates(specs[i], specs[j]) if i < n and j < n else False
+        tl.see("R07b", "legal maps", legal, f"map {_showmap(key)} of t{j} onto t{i} is tried; admissible: "
+               f"{sorted(_showmap(c) for c in candidates(specs[i], specs[j])) if i < n and j < n else '?'}")
+    # stored matches
+    for i, v in R.items():
+        for j, val in v.items():
+            if not (0 <= i < n and 0 <= j < n):
+                continue
+            tl.see("R07c", "prefilter", cls[i] == cls[j], f"t{j} merged into t{i} although their prefilter classes differ")
+            is_ord = isinstance(val, tuple) and len(val) == 2 and val[0] == "ORD"
+            tl.see("R07a", "ordered", is_ord, f"stored substitution for t{j} -> t{i} is {show(val)[:160]}, not an order_substitutions result")
+            if not is_ord:
+                # what was accepted can still be examined through the raw key
+                key = ("raw", _fz(val))
+            else:
+                key = val[1]
+                tl.see("R07b", "legal maps", key in candidates(specs[i], specs[j]),
+                       f"stored map {_showmap(key)} of t{j} onto t{i} is not admissible")
+            why = pf.accepted_properly(i, j, key)
+            for clause in ("single term", "spurious zero") if zero_checked else ("single term",):
+                tl.see("R07a", clause, why is None or why[0] != clause, why[1] if why else "")
+    # keys of one class must have been compared and all admissible maps rejected
+    keys = sorted(R)
+    for a, b in itertools.combinations(keys, 2):
+        if not (a < n and b < n) or cls[a] != cls[b]:
+            continue
+        cands = candidates(specs[a], specs[b])
+        if not cands:
+            continue
+        israw = lambda k: isinstance(k, tuple) and k[:1] == ("raw",)
+        if any(k[:2] in ((a, b), (b, a)) and israw(k[2]) for k in pf.A) or any(j in (a, b) and israw(k) for j, k in pf.Z):
+            continue        # compared with unordered maps: reported by the `ordered` clause
+        touched = [c for c in cands if (a, b, c) in pf.A or (b, c) in pf.Z]
+        rev = [c for c in candidates(specs[b], specs[a]) if (b, a, c) in pf.A or (a, c) in pf.Z]
+        if not touched and rev:
+            # roles exchanged (later term as reference): judge that direction
+            a, b, cands, touched = b, a, candidates(specs[b], specs[a]), rev
+        tl.see("R07c", "classes compared", bool(touched),
+               f"t{a} and t{b} have the same prefilter class and stay separate without any of the {len(cands)} admissible maps "
+               f"(e.g. {_showmap(sorted(cands)[0])}) having been tried")
+        if touched:
+            miss = [c for c in cands if not pf.rejected(a, b, c)]
+            tl.see("R07b", "all maps tried", not miss,
+                   f"t{a} and t{b} stay separate although the admissible map {_showmap(miss[0]) if miss else ''} was not rejected "
+                   "(neither found to give a sum nor to be a spurious zero)")
+    return pf
+
+
+def _showmap(key):
+    try:
+        return "{" + ", ".join(f"{a}->{b}" for a, b in key) + "}"
+    except Exception:
+        return show(key)[:120]
+
+
+def _cls_diff(c1, c2):
+    names = ("descriptions", "shared index subspaces", "pattern sizes", "target indices")
+    return ", ".join(nm for nm, x, y in zip(names, c1, c2) if x != y) or "-"
+
+
+# --------------------------------------------------------------------------------------------------------- scenarios
+
+def P(**spaces):
+    return {s: {i: list(p) for i, p in d.items()} for s, d in spaces.items()}
+
+
+def fct_scenarios(tier):
+    A = ("A", "anti", "", "")
+    sc = {
+        "two contracted indices, two maps": [
+            tspec("", P(occ={"i": ["p"], "j": ["p"]})), tspec("", P(occ={"k": ["p"], "j": ["p"]}))],
+        "target next to contracted indices of equal pattern, two spaces": [
+            tspec("ia", P(occ={"i": ["p"], "j": ["p"], "k": ["q"]}, virt={"a": ["r"], "b": ["r"]})),
+            tspec("ia", P(occ={"i": ["p"], "l": ["p"], "k": ["q"]}, virt={"c": ["r"], "a": ["r"]}))],
+        "two different target indices of equal pattern": [
+            tspec("ij", P(occ={"i": ["p"], "j": ["p"], "k": ["q"]})), tspec("ij", P(occ={"j": ["p"], "i": ["p"], "l": ["q"]}))],
+        "patterns without admissible map": [
+            tspec("", P(occ={"i": ["p"], "j": ["q"]})), tspec("", P(occ={"k": ["p"], "l": ["p"]}))],
+        "index without partner": [
+            tspec("", P(occ={"i": ["p"], "j": ["q"]})), tspec("", P(occ={"k": ["x"], "l": ["q"]}))],
+        "three terms of one class": [
+            tspec("", P(occ={"i": ["p"]})), tspec("", P(occ={"j": ["p"]})), tspec("", P(occ={"k": ["p"]}))],
+        "two classes of two terms": [
+            tspec("", P(occ={"i": ["p"]})), tspec("", P(occ={"j": ["p"]}), [("B", "anti", "", "")]),
+            tspec("", P(occ={"k": ["p"]})), tspec("", P(occ={"l": ["p"]}), [("B", "anti", "", "")])],
+        "different target indices": [
+            tspec("i", P(occ={"i": ["p"]})), tspec("", P(occ={"i": ["p"]}))],
+        "different target index names": [
+            tspec("i", P(occ={"i": ["p"], "k": ["q"]})), tspec("j", P(occ={"j": ["p"], "k": ["q"]}))],
+        "different descriptions": [
+            tspec("", P(occ={"i": ["p"]})), tspec("", P(occ={"j": ["p"]}), [("B", "anti", "", "")])],
+        "different number of objects": [
+            tspec("", P(occ={"i": ["p"]}), [A, A]), tspec("", P(occ={"j": ["p"]}), [A])],
+        "different pattern sizes": [
+            tspec("", P(occ={"i": ["p"]}, virt={"a": ["q"]})), tspec("", P(occ={"j": ["p"]}))],
+        "different shared index subspaces": [
+            tspec("", P(occ={"i": ["p"], "j": ["p"]}), [("A", "anti", "ij", ""), ("B", "anti", "ij", "")]),
+            tspec("", P(occ={"i": ["p"], "j": ["p"]}), [("A", "anti", "ij", ""), ("B", "anti", "i", "j")])],
+        "shared subspace of delta/nonsym objects": [
+            tspec("", P(occ={"i": ["p"], "j": ["p"]}), [("A", "nonsym", "ij", ""), ("B", "delta", "ij", "")]),
+            tspec("", P(occ={"k": ["p"], "l": ["p"]}), [("A", "nonsym", "kl", ""), ("B", "delta", "kl", "")])],
+        "prefactors do not count": [
+            tspec("", P(occ={"i": ["p"]}), [("prefactor", "pref", "", ""), A]), tspec("", P(occ={"j": ["p"]}), [A])],
+    }
+    sc["target index that one term does not hold"] = [
+        tspec("ij", P(occ={"i": ["p"], "k": ["q"]})), tspec("ij", P(occ={"i": ["p"], "j": ["q"]}))]
+    # larger tables, evaluated for substitutions that do not annihilate the term (the zero test is exercised above)
+    nz = {
+        "three indices of equal pattern, six maps": [
+            tspec("", P(occ={"i": ["p"], "j": ["p"], "k": ["p"]})), tspec("", P(occ={"l": ["p"], "m": ["p"], "n": ["p"]}))],
+        "four terms of one class": [tspec("", P(occ={x: ["p"]})) for x in "ijkl"],
+        "two spaces, two maps each": [
+            tspec("", P(occ={"i": ["p"], "j": ["p"]}, virt={"a": ["r"], "b": ["r"]})),
+            tspec("", P(occ={"k": ["p"], "l": ["p"]}, virt={"c": ["r"], "d": ["r"]}))],
+        "three indices, one of them a target": [
+            tspec("j", P(occ={"i": ["p"], "j": ["p"], "k": ["p"]})), tspec("j", P(occ={"l": ["p"], "j": ["p"], "m": ["p"]}))],
+    }
+    if tier == "thorough":
+        sc.update(nz)       # also with the zero test forking
+        nz["four indices of equal pattern, 24 maps"] = [
+            tspec("", P(occ={x: ["p"] for x in "ijkl"})), tspec("", P(occ={x: ["p"] for x in "klmn"}))]
+        nz["five terms in two classes"] = [tspec("", P(occ={x: ["p"]}), [("AB"[n % 2], "anti", "", "")]) for n, x in enumerate("ijklm")]
+    return sc, {k + " (non-vanishing substitutions)": v for k, v in nz.items()}
+
+
+def _sx(ctx, what, probe, max_paths=60000):
+    return Symex(ctx.model, inline=_inline_simplify, hooks=probe.hooks(), what=what, max_paths=max_paths, max_steps=2000000,
+                 obj_identity=True)
+
+
+def r07abc_partition(ctx):
+    fn = ctx.model.fn(FCT)
+    n_paths = n_acc = 0
+    full, nonzero = fct_scenarios(ctx.tier)
+    for name, specs in list(full.items()) + list(nonzero.items()):
+        probe = Probe(nonzero=name in nonzero)
+        sx = _sx(ctx, f"find_compatible_terms[{name}]", probe)
+        res = sx.run(fn, lambda: dict(terms=build_terms(World(), specs)))
+        tl = Tally()
+        tl.see("R07c", "flags", not probe.bad_flags, f"fingerprints are requested with {probe.bad_flags[:1]}: terms that differ in "
+               "exponents or target indices would share a class")
+        for o in res:
+            n_paths += 1
+            verify_partition(tl, specs, o, zero_checked=name not in nonzero)
+            if o.kind == "return" and isinstance(o.value, dict) and any(o.value.values()):
+                n_acc += 1
+        tl.flush(ctx, fn, name, FACTS)
+    ctx.floor("R07c", "evaluated paths of find_compatible_terms", n_paths, 15)
+    ctx.floor("R07a", "paths of find_compatible_terms that merge terms", n_acc, 5)
+    # input guard
+    if ctx.want("R07c"):
+        probe = Probe()
+        sx = _sx(ctx, "find_compatible_terms[guard]", probe)
+
+        def make_bad():
+            w = World()
+            ts = build_terms(w, [tspec("", P(occ={"i": ["p"]}))])
+            foreign = Obj(None, "x")
+            foreign.attrs.update(_classes=set())
+            return dict(terms=ts + [foreign])
+        outs = sx.run(fn, make_bad)
+        ctx.check("R07c", fn, all(o.kind == "raise" for o in outs), "a list with a non-Term element is refused",
+                  "find_compatible_terms accepts elements that are not Term containers", key="guard / non-Term input")
+
+
+# ------------------------------------------------------------------------------------------------------------ simplify
+
+def _expr(w, n_unexpanded, specs, name="expr"):
+    e = Obj("expr_container:Expr", name)
+    exp_terms = build_terms(w, specs)
+    raw = build_terms(w, [tspec("", {})] * n_unexpanded, prefix="u")
+    e.attrs.update(_expanded=n_unexpanded == 0, _exp_terms=exp_terms, _n=len(exp_terms) if n_unexpanded == 0 else n_unexpanded,
+                   terms=tuple(exp_terms) if n_unexpanded == 0 else tuple(raw), sympy=T("attr", sym(name), "sympy"))
+    return e
+
+
+def verify_sum(tl, specs, o):
+    """simplify's result on one path: every expanded term once; substituted ones with a map accepted on this path."""
+    n = len(specs)
+    tl.see("R07c", "no raise", o.kind == "return", f"simplify raises {o.exc} on a valid expression")
+    if o.kind != "return":
+        return
+    pf = PathFacts(o)
+    v = o.value
+    if isinstance(v, Obj):
+        ok = v.attrs.get("_expanded") is True and v.attrs.get("_n") == 1
+        tl.see("R07c", "expand first", v.attrs.get("_expanded") is True,
+               "the expression is returned without having been expanded: the single-term shortcut is taken on the term count of the "
+               "unexpanded expression, a product containing a sum is returned untouched")
+        tl.see("R07c", "trivial", ok or v.attrs.get("_expanded") is not True,
+               f"the input expression with {v.attrs.get('_n')} terms is returned unsimplified")
+        return
+    bare, subst, odd = [], [], []
+    for c, fs in expand_products(v):
+        if c == 1 and len(fs) == 1 and _term_no(fs[0]) is not None:
+            bare.append(_term_no(fs[0]))
+        elif c == 1 and len(fs) == 1 and _sub_token(fs[0]) is not None and _sub_token(fs[0])[0] is not None:
+            subst.append(_sub_token(fs[0]))
+        else:
+            odd.append((c, fs))
+    raw_terms = [fs for c, fs in odd if any(x.op == "sym" and _term_no(x, "u") is not None for x in subterms(fs))]
+    tl.see("R07c", "expand first", not raw_terms, "terms of the unexpanded expression are summed")
+    tl.see("R07c", "simplify sum", not odd, f"summand {show(odd[0][1])[:160] if odd else ''} with coefficient {odd[0][0] if odd else ''} is neither "
+           "a term of the expression nor a substituted term")
+    seen = sorted(bare + [j for j, k, a in subst])
+    tl.see("R07c", "simplify conservation", seen == list(range(n)),
+           f"terms in the returned sum: {seen}, expected each of the {n} terms of the expanded expression exactly once")
+    for j, key, arg in subst:
+        tl.see("R07a", "ordered", key is not None, f"t{j} is substituted with {show(arg)[:160]}, not an order_substitutions result")
+        if key is None:
+            continue
+        hosts = [i for i in bare if pf.accepted_properly(i, j, key) is None]
+        tl.see("R07c", "simplify substitution", bool(hosts),
+               f"t{j} is added with the map {_showmap(key)} that was not accepted against any term that is kept unchanged")
+    # matched terms must not be added unsubstituted: a bare term that the path merged into another one
+    for i in bare:
+        merged = [(h, k) for (h, j, k), pol in pf.A.items() if j == i and pol is False and h in bare and h != i
+                  and pf.accepted_properly(h, i, k) is None]
+        tl.see("R07c", "simplify substitution", not merged,
+               f"t{i} was mapped onto t{merged[0][0] if merged else '?'} but is added without the substitution")
+
+
+FACTS.update({
+    "expand first": "terms are taken from the expanded expression",
+    "trivial": "the expression itself is returned only if it has a single term",
+    "simplify sum": "the result is a sum of terms and substituted terms with coefficient one",
+    "simplify conservation": "every term of the expanded expression is added exactly once",
+    "simplify substitution": "matched terms are added with the map that was accepted for them, key terms unchanged",
+})
+
+
+def r07c_simplify(ctx):
+    fn = ctx.model.fn(SIMP)
+    three = [tspec("", P(occ={"i": ["p"]})), tspec("", P(occ={"j": ["p"]})), tspec("", P(occ={"k": ["p"]}))]
+    two = [tspec("", P(occ={"i": ["p"], "j": ["p"]})), tspec("", P(occ={"k": ["p"], "j": ["p"]}))]
+    mixed = [tspec("", P(occ={"i": ["p"]})), tspec("", P(occ={"j": ["p"]}), [("B", "anti", "", "")]), tspec("", P(occ={"k": ["p"]}))]
+    n_paths = 0
+    for name, n_raw, specs in (("expanded expression with three alike terms", 0, three),
+                               ("expanded expression, two maps", 0, two),
+                               ("expanded expression, two classes", 0, mixed),
+                               ("single product that expands to two terms", 1, two[:1] + [tspec("", P(occ={"k": ["p"], "l": ["p"]}))]),
+                               ("sum of two products that expands to three terms", 2, three),
+                               ("single term", 0, three[:1]),
+                               ("single product that expands to one term", 1, three[:1])):
+        probe = Probe()
+        sx = _sx(ctx, f"simplify[{name}]", probe)
+        outs = sx.run(fn, lambda: dict(expr=_expr(World(), n_raw, specs)))
+        tl = Tally()
+        for o in outs:
+            n_paths += 1
+            verify_sum(tl, specs, o)
+        tl.flush(ctx, fn, name, FACTS)
+    ctx.floor("R07c", "evaluated paths of simplify", n_paths, 7)
+    probe = Probe()
+    sx = _sx(ctx, "simplify[guard]", probe)
+
+    def bad():
+        x = Obj(None, "x")
+        x.attrs.update(_classes=set())
+        return dict(expr=x)
+    outs = sx.run(fn, bad)
+    ctx.check("R07c", fn, all(o.kind == "raise" and o.exc == "Inputerror" for o in outs), "input that is not an Expr is refused",
+              f"simplify accepts input that is not an Expr: {outs[:2]}", key="guard / non-Expr input")
+
+
+
+# ---------------------------------------------------------------------------------------------------------------------
+# R07e: the fingerprints of expr_container
+
+ANTI = {"antisymtensor": {"AntiSymmetricTensor", "SymbolicTensor"},
+        "amplitude": {"Amplitude", "AntiSymmetricTensor", "SymbolicTensor"},
+        "symtensor": {"SymmetricTensor", "AntiSymmetricTensor", "SymbolicTensor"}}
+OTHER = {"nonsymtensor": {"NonSymmetricTensor", "SymbolicTensor"}, "delta": {"KroneckerDelta"}, "create": {"Fd"},
+         "annihilate": {"F"}, "prefactor": {"Number"}, "symbol": {"Symbol"}}
+
+
+def _inline_ec(q):
+    return q.startswith("expr_container:")
+
+
+def _sympy_S():
+    """sympy.S restricted to the three bra-ket symmetry values (plain ints, so `is`/`==` are decided)."""
+    s = Obj(None, "S")
+    s.attrs.update(Zero=0, One=1, NegativeOne=-1)
+    return s
+
+
+def tensor(kind, name, upper, lower="", bks=0, exp=1):
+    return dict(kind=kind, name=name, upper=tuple(upper), lower=tuple(lower), bks=bks, exp=exp)
+
+
+def build_term(w, tensors, target, tokens=None):
+    """A Term record with Obj records for the given tensors; ``tokens`` (per object: descr, {index: [positions]})
+    replaces the fingerprints of the objects by opaque tokens."""
+    term = Obj("expr_container:Term", "term")
+    objs = []
+    for n, ts in enumerate(tensors):
+        base = Obj(None, f"base{n}")
+        idx = w.tup(ts["upper"] + ts["lower"])
+        base.attrs.update(_classes=set(ANTI.get(ts["kind"]) or OTHER[ts["kind"]]), name=ts["name"], upper=w.tup(ts["upper"]),
+                          lower=w.tup(ts["lower"]), bra_ket_sym=ts["bks"], idx=idx)
+        o = Obj("expr_container:Obj", f"o{n}")
+        o.attrs.update(base=base, base_and_exponent=(base, ts["exp"]), exponent=ts["exp"], idx=idx, name=ts["name"],
+                       type_as_str=ts["kind"], term=term, sympy=sym(f"o{n}.sympy"))
+        if tokens is not None:
+            o.attrs.update(_descr=tokens[n][0], _pos={w.idx(i): list(p) for i, p in tokens[n][1].items()},
+                           idx=w.tup(tokens[n][1]))
+        objs.append(o)
+    term.attrs.update(objects=tuple(objs), target=w.tup(target), provided_target_idx=w.tup(target))
+    return term
+
+
+def _sp(names):
+    return tuple(_space(n)[0] for n in names)
+
+
+def dkey(ts, target, inc_exp, inc_tgt):
+    """What a description has to encode - and nothing else."""
+    kind = ts["kind"]
+    if kind in ("prefactor", "symbol"):
+        return (kind,)
+    if kind in ANTI:
+        k = [kind, ts["name"], _sp(ts["upper"]), _sp(ts["lower"])]
+        if inc_tgt:
+            tu = tuple(n for n in ts["upper"] if n in target)
+            tl = tuple(n for n in ts["lower"] if n in target)
+            # orientation of the target indices counts only without bra-ket symmetry
+            k.append((tu, tl) if ts["bks"] == 0 else tuple(sorted([tu, tl])))
+    elif kind == "nonsymtensor":
+        idx = ts["upper"] + ts["lower"]
+        k = [kind, ts["name"], _sp(idx)]
+        if inc_tgt:
+            k.append(tuple((n, i) for i, n in enumerate(idx) if n in target))
+    else:
+        idx = ts["upper"] + ts["lower"]
+        k = [kind, _sp(idx)]
+        if inc_tgt:
+            k.append(tuple(n for n in idx if n in target))
+    if inc_exp:
+        k.append(ts["exp"])
+    return tuple(k)
+
+
+def ckeys(ts, target, inc_exp, inc_tgt):
+    """Expected position fingerprints: list of (index name, key) for every occurrence of an index."""
+    d = dkey(ts, target, inc_exp, inc_tgt)
+    out = []
+    if ts["kind"] in ANTI:
+        for part, names in (("u", ts["upper"]), ("l", ts["lower"])):
+            for n_, s in enumerate(names):
+                nb = tuple(x for m, x in enumerate(names) if m != n_)
+                out.append((s, (d, part if ts["bks"] == 0 else None, _sp(nb),
+                                tuple(x for x in nb if x in target) if inc_tgt else None)))
+    elif ts["kind"] == "nonsymtensor":
+        out = [(s, (d, i)) for i, s in enumerate(ts["upper"] + ts["lower"])]
+    elif ts["kind"] in ("delta", "create", "annihilate"):
+        out = [(s, (d,)) for s in ts["upper"] + ts["lower"]]
+    return out
+
+
+def partition_check(ctx, rule, node, what, entries, key, same_fact, diff_fact):
+    """entries: (label, expected key, fingerprint).  Equal keys <=> equal fingerprints."""
+    by_key, by_val = {}, {}
+    split = merged = None
+    for lab, k, v in entries:
+        if k in by_key and by_key[k][1] != v and split is None:
+            split = (by_key[k][0], by_key[k][1], lab, v)
+        by_key.setdefault(k, (lab, v))
+        if v in by_val and by_val[v][1] != k and merged is None:
+            merged = (by_val[v][0], lab, v, by_val[v][1], k)
+        by_val.setdefault(v, (lab, k))
+    ctx.check(rule, node, split is None, f"{what}: {same_fact} ({len(entries)} entries, {len(by_key)} classes)",
+              f"{what}: {split[0]} and {split[2]} have to share the fingerprint but get `{_cut(split[1])}` and `{_cut(split[3])}`: terms that "
+              "differ only by a renaming of contracted indices would not be recognised" if split else "", key=f"{key} / invariance")
+    ctx.check(rule, node, merged is None, f"{what}: {diff_fact}",
+              f"{what}: {merged[0]} and {merged[1]} get the same fingerprint `{_cut(merged[2])}` although they differ in "
+              f"{_key_diff(merged[3], merged[4])}" if merged else "", key=f"{key} / discrimination")
+
+
+def _cut(v):
+    t = v if isinstance(v, str) else show(v)
+    return t if len(t) < 140 else t[:140] + "..."
+
+
+def _key_diff(a, b):
+    if isinstance(a, tuple) and isinstance(b, tuple) and len(a) == len(b):
+        return "; ".join(f"{x!r} vs {y!r}" for x, y in zip(a, b) if x != y)[:300]
+    return f"{a!r} vs {b!r}"[:300]
+
+
+def _one(outs, what):
+    if len(outs) != 1 or outs[0].kind != "return":
+        raise AnalysisError(f"C07: {what}: expected one returning path, got {outs[:3]}")
+    return outs[0].value
+
+
+def _label(ts, target):
+    return f"{ts['name']}^{{{''.join(ts['upper'])}}}_{{{''.join(ts['lower'])}}}" + (f"^{ts['exp']}" if ts["exp"] != 1 else "") + \
+        f"[sym {ts['bks']}, targets {''.join(target) or '-'}]"
+
+
+def object_table(tier):
+    shapes = [("i", "j"), ("j", "i"), ("k", "l"), ("ik", "jl"), ("jl", "ik"), ("ij", "ab"), ("i", "a"), ("a", "i"), ("i", "i"),
+              ("ij", "kl")]
+    targets = ["", "i", "j", "ij", "a"]
+    kinds = ["antisymtensor"] if tier == "quick" else list(ANTI)
+    out = []
+    for kind in kinds:
+        for name in ("V", "X"):
+            for up, lo in shapes:
+                for tg in targets:
+                    for bks in (0, 1, -1):
+                        for exp in (1, 2):
+                            if name == "X" and (exp == 2 or tg in ("a",)) and tier == "quick":
+                                continue
+                            out.append((tensor(kind, name, up, lo, bks, exp), tuple(tg)))
+    for name in ("X", "Y"):
+        for idx in ("i", "j", "ij", "ji", "ia", "ijk"):
+            for tg in ("", "i", "j", "ij"):
+                for exp in (1, 2):
+                    out.append((tensor("nonsymtensor", name, idx, "", 0, exp), tuple(tg)))
+    for kind in ("delta", "create", "annihilate"):
+        for idx in (("ij", "ik", "ab", "ia") if kind == "delta" else ("i", "j", "a")):
+            for tg in ("", "i", "j"):
+                out.append((tensor(kind, "", idx, "", 0, 1), tuple(tg)))
+    return out
+
+
+def r07e_objects(ctx):
     rule = "R07e"
-    cp = ctx.model.fn("expr_container:Obj.crude_pos")
-    pos = {}
-    for a in walk_fn(cp):
-        if isinstance(a, ast.Assign) and U(a.targets[0]) == "pos":
-            cs = conditions(a)
-            pos["nosym" if ("tensor.bra_ket_sym is S.Zero", True) in cs else "sym" if ("tensor.bra_ket_sym is S.Zero", False) in cs else "?"] = U(a.value)
-    ctx.check(rule, cp, pos == {"nosym": "f'{description}-{uplo}'", "sym": "description"},
-              "upper/lower position distinguished iff the tensor has no bra-ket symmetry", f"position labels {pos}", key="uplo")
-    d = ctx.model.fn("expr_container:Obj.description")
-    ex = [n for n in walk_fn(d) if isinstance(n, ast.AugAssign) and "exponent" in U(n.value)]
-    ok = len(ex) == 3 and all(("include_exponent", True) in conditions(n) for n in ex)
-    ctx.check(rule, d, ok, "exponent part of the description on request", "exponent handling in description changed", key="exponent")
-    tg2 = {}
-    for n in walk_fn(d):
-        if isinstance(n, ast.AugAssign) and "target_u" in U(n.value) and "target_l" in U(n.value):
-            cs = conditions(n)
-            k = "nosym" if ("base.bra_ket_sym is S.Zero", True) in cs else "sym" if ("base.bra_ket_sym is S.Zero", False) in cs else "?"
-            tg2.setdefault(k, []).append(U(n.value))
-    symv = tg2.get("sym", [])
-    ok = tg2.get("nosym") == ["f'-{target_u}-{target_l}'"] and len(symv) == 2 and set(tg2) == {"nosym", "sym"} \
-        and any("sorted([target_u, target_l])" in v for v in symv) and any(v == "f'-{target_u + target_l}'" for v in symv)
-    ctx.check(rule, d, ok, "target names ordered upper/lower iff the tensor has no bra-ket symmetry (sorted otherwise)",
-              f"target part of the description: {tg2}; for tensors with bra-ket symmetry +-1 the upper/lower orientation depends on "
-              "the index names, so an ordered description is not invariant under renaming", key="target orientation")
-    nm = [n for n in walk_fn(d) if isinstance(n, ast.AugAssign) and "name" in U(n.value) and "data" in U(n.value)]
-    ctx.check(rule, d, len(nm) == 2, "tensor name and index spaces part of the description", "name/space part changed", key="name space")
-    tg = [n for n in walk_fn(d) if isinstance(n, ast.AugAssign) and "target_u" in U(n.value)]
-    srt = [U(n.value) for n in tg]
-    ctx.check(rule, d, "f\"-{'-'.join(sorted([target_u, target_l]))}\"" in srt or any("sorted([target_u, target_l])" in x for x in srt),
-              "bra-ket symmetric tensors: target names order-independent", "target part of the description changed", key="target names")
-    pt = ctx.model.fn("expr_container:Term.pattern")
-    so = [n for n in walk_fn(pt) if isinstance(n, ast.Assign) and U(n.targets[0]) == "pattern[ov][s]"]
-    ctx.check(rule, pt, len(so) == 1 and U(so[0].value) == "sorted(pat)", "patterns sorted for comparison", "pattern sorting changed", key="sorted")
-    kk = [n for n in walk_fn(pt) if isinstance(n, ast.Assign) and U(n.targets[0]) == "key"]
-    ctx.check(rule, pt, len(kk) == 1 and U(kk[0].value) == "s.space_and_spin", "pattern grouped by (space, spin)", "pattern grouping changed",
-              key="grouping")
-    co = ctx.model.fn("expr_container:Term.coupling")
-    sk = [n for n in walk_fn(co) if isinstance(n, ast.Continue)]
-    tests = sorted(U(n._parent.test) for n in sk)
-    ctx.check(rule, co, tests == ["descr_counter[descr] < 2", "i == other_i", "not matches"], "coupling only for repeated objects",
-              f"coupling skips {tests}", key="coupling")
+    dfn = ctx.model.fn("expr_container:Obj.description")
+    cfn = ctx.model.fn("expr_container:Obj.crude_pos")
+    sx = Symex(ctx.model, inline=_inline_ec, hooks={"S": _sympy_S()}, what="Obj.description/crude_pos", max_paths=64,
+               obj_identity=True)
+    table = object_table(ctx.tier)
+    flagsets = [(True, True), (True, False), (False, True), (False, False)]
+    n = 0
+    for inc_exp, inc_tgt in flagsets:
+        dgroups, cgroups = {}, {}
+        struct_bad = None
+        for ts, target in table:
+            if (inc_exp, inc_tgt) != (True, True) and ts["name"] == "X":
+                continue
+            def mk():
+                t = build_term(World(), [ts], target)
+                return dict(self=t.attrs["objects"][0], include_exponent=inc_exp, include_target_idx=inc_tgt)
+            d = _one(sx.run(dfn, mk), f"description of {_label(ts, target)}")
+            if not isinstance(d, str):
+                raise AnalysisError(f"C07: description of {_label(ts, target)} is not a string: {show(d)[:120]}")
+            n += 1
+            grp = ts["bks"] if ts["kind"] in ANTI else 0
+            dgroups.setdefault(grp, []).append((_label(ts, target), dkey(ts, target, inc_exp, inc_tgt), d))
+            pos = _one(sx.run(cfn, mk), f"crude_pos of {_label(ts, target)}")
+            want = ckeys(ts, target, inc_exp, inc_tgt)
+            got = {}
+            if not isinstance(pos, dict) or not all(isinstance(k, Obj) and isinstance(v, list) for k, v in pos.items()):
+                raise AnalysisError(f"C07: crude_pos of {_label(ts, target)} is not a dict index -> list: {show(pos)[:120]}")
+            for k, v in pos.items():
+                got[k.attrs["name"]] = list(v)
+            names = sorted(s for s, _ in want)
+            have = sorted(s for s, v in got.items() for _ in v)
+            if names != have and struct_bad is None:
+                struct_bad = (_label(ts, target), names, have)
+            if names == have:
+                # pair the expected keys of an index with its positions (both in upper-before-lower order)
+                for s in set(names):
+                    ks = [k for s2, k in want if s2 == s]
+                    for k, v in zip(ks, got[s]):
+                        if not isinstance(v, str):
+                            raise AnalysisError(f"C07: position of {s} in {_label(ts, target)} is not a string")
+                        cgroups.setdefault(grp, []).append((f"{s} in {_label(ts, target)}", k, v))
+        fl = f"exponent {'in' if inc_exp else 'ex'}cluded, target names {'in' if inc_tgt else 'ex'}cluded"
+        ctx.check(rule, cfn, struct_bad is None, f"crude_pos lists every index once per occurrence ({fl})",
+                  f"crude_pos of {struct_bad[0]} lists positions for {struct_bad[2]}, the object holds {struct_bad[1]}" if struct_bad else "",
+                  key=f"crude_pos occurrences {inc_exp} {inc_tgt}")
+        for grp, entries in sorted(dgroups.items()):
+            partition_check(ctx, rule, dfn, f"description, bra-ket symmetry {grp}, {fl}", entries, f"description {grp} {inc_exp} {inc_tgt}",
+                            "objects that agree in type, name, spaces, exponent, target names (orientation only without bra-ket symmetry) share "
+                            "the description", "objects that differ in one of them get different descriptions")
+        for grp, entries in sorted(cgroups.items()):
+            partition_check(ctx, rule, cfn, f"crude_pos, bra-ket symmetry {grp}, {fl}", entries, f"crude_pos {grp} {inc_exp} {inc_tgt}",
+                            "positions that agree in description, neighbour spaces, neighbour targets (upper/lower only without bra-ket "
+                            "symmetry) coincide", "positions that differ in one of them are distinguished")
+    ctx.floor(rule, "objects whose description/crude_pos were evaluated", n, 200)
+    # a number has no index positions
+    for kind in ("prefactor", "symbol"):
+        ts = tensor(kind, "", "", "", 0, 1)
+        def mk():
+            t = build_term(World(), [ts], ())
+            return dict(self=t.attrs["objects"][0], include_exponent=True, include_target_idx=True)
+        d = _one(sx.run(dfn, mk), kind)
+        pos = _one(sx.run(cfn, mk), kind)
+        ctx.check(rule, dfn, d == kind and pos == {}, f"{kind}: description is the type, no index positions",
+                  f"{kind}: description {d!r}, positions {show(pos)[:80]}", key=f"{kind} description")
+
+
+def token_terms():
+    """Terms whose objects carry opaque fingerprints: (descr, {index: [position tokens]}) per object."""
+    return {
+        "alike objects told apart by their partners": [
+            ("T", {"i": ["P1"], "a": ["P2"]}), ("T", {"j": ["P1"], "b": ["P2"]}), ("F", {"a": ["Q1"], "c": ["Q2"]}),
+            ("G", {"b": ["R1"], "d": ["R2"]})],
+        "alike objects with alike partners": [
+            ("T", {"i": ["P1"], "a": ["P2"]}), ("T", {"j": ["P1"], "b": ["P2"]}), ("F", {"a": ["Q1"], "c": ["Q2"]}),
+            ("F", {"b": ["Q1"], "d": ["Q2"]})],
+        "alike objects sharing indices with each other": [
+            ("T", {"i": ["P1"], "j": ["P2"]}), ("T", {"j": ["P1"], "k": ["P2"]}), ("F", {"k": ["Q1"], "i": ["Q2"]})],
+        "no repeated object": [
+            ("T", {"i": ["P1"], "a": ["P2"]}), ("F", {"a": ["Q1"], "i": ["Q2"]}), ("G", {"k": ["R1"]})],
+        "repeated objects without common indices": [
+            ("T", {"i": ["P1"]}), ("T", {"j": ["P1"]}), ("F", {"k": ["Q1"]})],
+        "index twice on one object": [
+            ("T", {"i": ["P1", "P2"], "a": ["P3"]}), ("T", {"j": ["P1", "P2"], "b": ["P3"]}), ("F", {"a": ["Q1"], "b": ["Q2"]})],
+        "three alike objects in a chain": [
+            ("T", {"i": ["P1"], "j": ["P2"]}), ("T", {"j": ["P1"], "k": ["P2"]}), ("T", {"k": ["P1"], "l": ["P2"]})],
+    }
+
+
+def coupling_expected(objs):
+    """Objects whose description occurs more than once carry the positions (on the *other* objects) of the indices they
+    share with them."""
+    out = {}
+    for i, (d, pos) in enumerate(objs):
+        if sum(1 for d2, _ in objs if d2 == d) < 2:
+            continue
+        ms = [p for j, (_, pos2) in enumerate(objs) if j != i for s_ in pos if s_ in pos2 for p in pos2[s_]]
+        if ms:
+            out[i] = sorted(ms)
+    return out
+
+
+def r07e_terms(ctx):
+    rule = "R07e"
+    cfn = ctx.model.fn("expr_container:Term.coupling")
+    pfn = ctx.model.fn("expr_container:Term.pattern")
+    asked = []
+
+    def h_descr(sx, a, kw):
+        asked.append(("description", tuple(a[1:]), tuple(sorted(kw.items()))))
+        return a[0].attrs["_descr"]
+
+    def h_pos(sx, a, kw):
+        asked.append(("crude_pos", tuple(a[1:]), tuple(sorted(kw.items()))))
+        return {k: list(v) for k, v in a[0].attrs["_pos"].items()}
+    sx = Symex(ctx.model, inline=_inline_ec, hooks={"S": _sympy_S(), "Obj.description": h_descr, "Obj.crude_pos": h_pos},
+               what="Term.coupling/pattern", max_paths=64, obj_identity=True)
+    entries = []
+    for name, objs in token_terms().items():
+        orders = [list(range(len(objs))), list(reversed(range(len(objs))))]
+        for order in orders:
+            ob = [objs[i] for i in order]
+            tens = [tensor("nonsymtensor", d, "".join(pos), "", 0, 1) for d, pos in ob]
+
+            def mk():
+                return dict(self=build_term(World(), tens, (), tokens=ob), include_target_idx=True, include_exponent=True)
+            coup = _one(sx.run(cfn, mk), f"coupling of {name}")
+            want = coupling_expected(ob)
+            got = {k: sorted(v) for k, v in coup.items()} if isinstance(coup, dict) and all(isinstance(v, list) for v in coup.values()) else coup
+            ctx.check(rule, cfn, got == want, f"{name}: coupling = positions of the shared indices on the other objects, repeated objects only",
+                      f"{name}: coupling is {show(got)[:200]}, expected {want}", key=f"coupling {name} {order[0]}")
+            pat = _one(sx.run(pfn, mk), f"pattern of {name}")
+            idxs = sorted({s_ for _, pos in ob for s_ in pos})
+            ok = isinstance(pat, dict) and all(isinstance(v, dict) for v in pat.values())
+            listed = sorted((k, s_.attrs["name"]) for k, v in pat.items() for s_ in v) if ok else None
+            ctx.check(rule, pfn, ok and listed == sorted(((_space(s_), ""), s_) for s_ in idxs),
+                      f"{name}: every index once, under its (space, spin)",
+                      f"{name}: pattern lists {listed}, the term holds {idxs}", key=f"pattern structure {name} {order[0]}")
+            if not ok:
+                continue
+            for k, v in pat.items():
+                for s_, lst in v.items():
+                    nm = s_.attrs["name"]
+                    F = tuple(sorted((p, tuple(want[i]) if i in want else None) for i, (_, pos) in enumerate(ob) for p in pos.get(nm, [])))
+                    entries.append((f"{nm} in `{name}`" + (" (objects reversed)" if order[0] else ""), F, tuple(lst)))
+    bad = [a for a in asked if any(v is not True for v in a[1]) or any(v is not True for _, v in a[2])]
+    ctx.check(rule, pfn, not bad, "pattern/coupling forward include_target_idx / include_exponent to the objects",
+              f"fingerprints of the objects requested with {bad[:1]} although both switches are set", key="pattern switches")
+    partition_check(ctx, rule, pfn, "pattern over positions and couplings", entries, "pattern tokens",
+                    "indices with the same multiset of (position, coupling of the object) get the same pattern, in whatever order the objects "
+                    "come", "indices that differ in a position or in the coupling of an object are told apart")
+    ctx.floor(rule, "index patterns compared", len(entries), 30)
+
+
+def _canon_key(n):
+    return (_space(n)[0], "", int(n[1:]) if n[1:] else 0, n[0])
+
+
+def canon_tensor(ts):
+    """Model of the canonical form sympy_objects gives a tensor: parts sorted, bra/ket swapped for (anti)symmetric ones."""
+    if ts["kind"] not in ANTI:
+        return dict(ts)
+    up, lo = tuple(sorted(ts["upper"], key=_canon_key)), tuple(sorted(ts["lower"], key=_canon_key))
+    if ts["bks"] != 0 and len(up) == len(lo):
+        su, sl = [_space(x)[0] for x in up], [_space(x)[0] for x in lo]
+        nu, nl = [(_canon_key(x)[2], x[0]) for x in up], [(_canon_key(x)[2], x[0]) for x in lo]
+        if sl < su or (sl == su and nl < nu):
+            up, lo = lo, up
+    return dict(ts, upper=up, lower=lo)
+
+
+def rename(tensors, pi, order=None):
+    out = [canon_tensor(dict(ts, upper=tuple(pi.get(x, x) for x in ts["upper"]), lower=tuple(pi.get(x, x) for x in ts["lower"])))
+           for ts in tensors]
+    return [out[i] for i in order] if order else out
+
+
+def real_terms(tier):
+    out = []
+    for bks in (0, 1, -1):
+        out.append((f"d^ka_lb X_k Y_l, d with bra-ket symmetry {bks}, k<->l",
+                    [tensor("antisymtensor", "d", "ka", "lb", bks), tensor("nonsymtensor", "X", "k"), tensor("nonsymtensor", "Y", "l")],
+                    "ab", {"k": "l", "l": "k"}, None))
+        out.append((f"d^ik_jl X_k Y_l, d with bra-ket symmetry {bks}, k<->l",
+                    [tensor("antisymtensor", "d", "ik", "jl", bks), tensor("nonsymtensor", "X", "k"), tensor("nonsymtensor", "Y", "l")],
+                    "ij", {"k": "l", "l": "k"}, [0, 2, 1]))
+        out.append((f"d^kl_mn X_km Y_ln, d with bra-ket symmetry {bks}, (k,l)<->(m,n)",
+                    [tensor("antisymtensor", "d", "kl", "mn", bks), tensor("nonsymtensor", "X", "km"), tensor("nonsymtensor", "X", "ln")],
+                    "", {"k": "m", "m": "k", "l": "n", "n": "l"}, [0, 2, 1]))
+    out.append(("t^a_i t^b_j f^a_c g^b_d, (i,a)<->(j,b), objects reordered",
+                [tensor("amplitude", "t1", "a", "i"), tensor("amplitude", "t1", "b", "j"), tensor("antisymtensor", "f", "a", "c", 1),
+                 tensor("antisymtensor", "g", "b", "d", 1)], "cd", {"i": "j", "j": "i", "a": "b", "b": "a"}, [1, 0, 3, 2]))
+    out.append(("V^ij_ab t^ab_ij squared amplitudes, i->k, j->l",
+                [tensor("antisymtensor", "V", "ij", "ab", 1), tensor("amplitude", "t2", "ab", "ij", 0, 2)], "",
+                {"i": "k", "j": "l"}, [1, 0]))
+    out.append(("delta_ij X_ik Y_jl, (i,k)<->(j,l)",
+                [tensor("delta", "", "ij"), tensor("nonsymtensor", "X", "ik"), tensor("nonsymtensor", "X", "jl")], "",
+                {"i": "j", "j": "i", "k": "l", "l": "k"}, [0, 2, 1]))
+    return out
+
+
+def r07e_equivariance(ctx):
+    rule = "R07e"
+    pfn = ctx.model.fn("expr_container:Term.pattern")
+    sx = Symex(ctx.model, inline=_inline_ec, hooks={"S": _sympy_S()}, what="Term.pattern (evaluated through)", max_paths=64,
+               obj_identity=True)
+    n = 0
+    for name, tensors, target, pi, order in real_terms(ctx.tier):
+        t1 = [canon_tensor(ts) for ts in tensors]
+        t2 = rename(tensors, pi, order)
+        pats = []
+        for tens in (t1, t2):
+            pat = _one(sx.run(pfn, lambda: dict(self=build_term(World(), tens, tuple(target)), include_target_idx=True,
+                                                include_exponent=True)), f"pattern of {name}")
+            if not (isinstance(pat, dict) and all(isinstance(v, dict) for v in pat.values())):
+                raise AnalysisError(f"C07: pattern of {name} is not a dict of dicts")
+            pats.append({s_.attrs["name"]: (k, list(lst)) for k, v in pat.items() for s_, lst in v.items()})
+        bad = None
+        for s_, (k, lst) in sorted(pats[0].items()):
+            img = pi.get(s_, s_)
+            if img not in pats[1] or pats[1][img] != (k, lst):
+                bad = (s_, img, lst, pats[1].get(img))
+                break
+        n += 1
+        ctx.check(rule, pfn, bad is None and len(pats[0]) == len(pats[1]),
+                  f"{name}: every index of the renamed term has the pattern of its preimage",
+                  f"{name}: index {bad[0]} has the pattern {_cut(bad[2])}, its image {bad[1]} in the renamed term has "
+                  f"{_cut(bad[3][1] if bad[3] else None)}: the two alpha-equivalent terms would not be merged" if bad else
+                  f"{name}: different index sets", key=f"equivariance {name}")
+    ctx.floor(rule, "renamed terms evaluated", n, 8)
+
+
+
+def r07e_sweep(ctx, cap=24):
+    """Thorough tier: every renaming of the contracted indices (space preserving, at most ``cap`` per term) of a family of
+    terms, objects reversed; the pattern of the renamed term is the renamed pattern."""
+    rule = "R07e"
+    pfn = ctx.model.fn("expr_container:Term.pattern")
+    sx = Symex(ctx.model, inline=_inline_ec, hooks={"S": _sympy_S()}, what="Term.pattern (renaming sweep)", max_paths=64,
+               obj_identity=True)
+    A, N = "antisymtensor", "nonsymtensor"
+    n = 0
+    for bks in (0, 1, -1):
+        family = [
+            ("d^ik_jl X_k Y_l", [tensor(A, "d", "ik", "jl", bks), tensor(N, "X", "k"), tensor(N, "Y", "l")], "ij"),
+            ("d^kl_mn X_km Y_ln", [tensor(A, "d", "kl", "mn", bks), tensor(N, "X", "km"), tensor(N, "Y", "ln")], ""),
+            ("d^ik_jl d^jl_mn X_m Y_n Z_k", [tensor(A, "d", "ik", "jl", bks), tensor(A, "d", "jl", "mn", bks), tensor(N, "X", "m"),
+                                              tensor(N, "Y", "n"), tensor(N, "Z", "k")], "i"),
+            ("d^ka_lb d^lb_mc X_kmc", [tensor(A, "d", "ka", "lb", bks), tensor(A, "d", "lb", "mc", bks), tensor(N, "X", "kmc")], "a"),
+            ("d^ij_kl d^kl_mn d^mn_ij", [tensor(A, "d", "ij", "kl", bks), tensor(A, "d", "kl", "mn", bks), tensor(A, "d", "mn", "ij", bks)], ""),
+            ("(d^ia_jb)^2 t^b_j", [tensor(A, "d", "ia", "jb", bks, 2), tensor("amplitude", "t1", "b", "j")], "ia"),
+        ]
+        for name, tens, target in family:
+            names = sorted({x for t in tens for x in t["upper"] + t["lower"]})
+            occ = [x for x in names if x not in target and _space(x) == "occ"]
+            virt = [x for x in names if x not in target and _space(x) == "virt"]
+
+            def pat(tl_):
+                p = _one(sx.run(pfn, lambda: dict(self=build_term(World(), tl_, tuple(target)), include_target_idx=True,
+                                                  include_exponent=True)), f"pattern of {name}")
+                return {s_.attrs["name"]: (k, list(lst)) for k, v in p.items() for s_, lst in v.items()}
+            p0 = pat([canon_tensor(t) for t in tens])
+            bad = None
+            perms = list(itertools.product(itertools.permutations(occ), itertools.permutations(virt)))
+            step = max(1, len(perms) // cap)
+            for po, pv in perms[::step]:
+                pi = dict(zip(occ, po))
+                pi.update(zip(virt, pv))
+                t2 = rename(tens, pi, list(reversed(range(len(tens)))))
+                p1 = pat(t2)
+                n += 1
+                for s_, v in p0.items():
+                    if p1.get(pi.get(s_, s_)) != v and bad is None:
+                        bad = (pi, s_, v, p1.get(pi.get(s_, s_)))
+            ctx.check(rule, pfn, bad is None, f"{name}, bra-ket symmetry {bks}: patterns follow every renaming of the contracted indices",
+                      f"{name}, bra-ket symmetry {bks}: after the renaming {bad[0]} index {bad[1]} -> {bad[0].get(bad[1], bad[1])} changes its "
+                      f"pattern from {_cut(bad[2][1])} to {_cut(bad[3][1] if bad[3] else None)}" if bad else "", key=f"sweep {name} {bks}")
+    ctx.floor(rule, "renamings evaluated in the sweep", n, 100)
 
 
 def run(ctx):
-    for r, f in (("R07a", r07a), ("R07b", r07b), ("R07c", r07c), ("R07e", r07e)):
-        if ctx.want(r):
-            f(ctx)
+    if ctx.want("R07a") or ctx.want("R07b") or ctx.want("R07c"):
+        r07abc_partition(ctx)
+    if ctx.want("R07c") or ctx.want("R07a"):
+        r07c_simplify(ctx)
+    if ctx.want("R07e"):
+        r07e_objects(ctx)
+        r07e_terms(ctx)
+        r07e_equivariance(ctx)
+        if ctx.tier == "thorough":
+            r07e_sweep(ctx)
     if ctx.want("R07d") or ctx.want("R08a"):
         c08.r08a(ctx, modules={"simplify"} if ctx.tier == "quick" else {"simplify", "expr_container", "reduce_expr"})
